@@ -1282,6 +1282,21 @@ def judge_c13(ops, impl):
                 bad.append((i, 'request path %r was rewritten to %r' % (path, got)))
     return bad
 
+SIMPLE_CASE = set('ÄÖÜÉÈÀÇÑäöüéèàçñß')
+
+def go_lower_simple(b):
+    """lower case of a UTF-8 string whose non-ASCII letters map one-to-one; None when it is anything else"""
+    try:
+        t = b.decode('utf-8')
+    except UnicodeDecodeError:
+        return None
+    if any(ord(c) >= 0x80 and c not in SIMPLE_CASE for c in t):
+        return None
+    return t.lower().encode('utf-8')
+
+def lower_dom(d):
+    return go_lower_simple(d) or d.lower()
+
 def norm_host(h):
     i = h.rfind(b':')
     if i != -1:
@@ -1316,15 +1331,15 @@ def judge_c14(ops, impl):
         if not toks:
             continue
         if toks[0] == 'hosts' and obs == 'ok':
-            hosts[int(toks[1])] = dict(doms=[d.lower() for d in decL(toks[2])], ic={}, tainted=False)
+            hosts[int(toks[1])] = dict(doms=[lower_dom(d) for d in decL(toks[2])], ic={}, tainted=False)
         elif toks[0] == 'hosts-add' and obs == 'ok' and int(toks[1]) in hosts:
             hosts[int(toks[1])].pop('deleted', None); hosts[int(toks[1])]['answers'] = {}
-            d = decB(toks[2]).lower()
+            d = lower_dom(decB(toks[2]))
             if d not in hosts[int(toks[1])]['doms']:
                 hosts[int(toks[1])]['doms'].append(d)
             # an interceptor registered later changes the kind of later-added domains only
         elif toks[0] == 'hosts-del' and int(toks[1]) in hosts:
-            d = decB(toks[2]).lower()
+            d = lower_dom(decB(toks[2]))
             hh = hosts[int(toks[1])]
             hh['doms'] = [x for x in hh['doms'] if x != d]
             # frame of Delete: a host accepted before and rejected right after must have been served by the deleted domain
@@ -1337,6 +1352,12 @@ def judge_c14(ops, impl):
             h = hosts[int(toks[1])]
             host = decB(toks[2])
             if any(c >= 0x80 for c in host):
+                # outside the modelled domain (ASCII); one clause is still judged for well-formed UTF-8 whose letters have a
+                # one-to-one lower case (Go's strings.ToLower and Python's str.lower agree there): Add and Match lower-case
+                # alike, so a registered literal domain accepts every case spelling of itself
+                lh = go_lower_simple(norm_host(host))
+                if lh is not None and obs.split(' ')[1] != '1' and any(go_lower_simple(d) == lh for d in h['doms'] if b'{' not in d):
+                    bad.append((i, 'registered domain %r (host %r) is rejected: Add and Match do not lower-case alike' % (lh, host)))
                 continue
             nh = norm_host(host)
             parts = obs.split(' ')
